@@ -240,7 +240,8 @@ Inductive expr :=
 | EIncLocal (post : bool) (x : nat) (t : option ity) (d : Z)   (* ++/-- on a local; t = None: pointer, d = +-scale *)
 | ECall (f : nat) (args : list expr)
 | EBuiltin (f : builtin) (args : list expr)
-| EComma (a b : expr).
+| EComma (a b : expr)
+| EIncMem (post : bool) (t : option ity) (d : Z) (p : expr).   (* ++/-- on the object p points to (p evaluated once) *)
 
 Inductive stmt :=
 | SSkip
@@ -350,6 +351,22 @@ Section Sem.
                            end) args st;
         do (v, m') <- do_builtin_m f vs (memm st1); Ok (v, mkst (locals st1) m')
     | EComma a b => do (_, st1) <- eval a st; eval b st1
+    | EIncMem post t d p =>
+        do (vp, st1) <- eval p st;
+        match vp with
+        | VPtr b o =>
+            do c <- load (memm st1) b o;
+            do vw <- match t, c with
+                     | Some t, VInt z => do r <- chk t (wrap t z + d); Ok (VInt (wrap t z), VInt r)
+                     | None, VPtr b' o' => Ok (c, VPtr b' (o' + d))
+                     | _, VUndef => Err EUndef
+                     | _, _ => Err EType
+                     end;
+            do m' <- store (memm st1) b o (snd vw);
+            Ok (if post then fst vw else snd vw, mkst (locals st1) m')
+        | VUndef => Err EUndef
+        | VInt _ => Err EOob
+        end
     end.
 
   Definition eval_opt (e : option expr) (st : state) : res (val * state) :=
